@@ -29,6 +29,8 @@ def run(args):
         chk = [(c, m) for c, m in zip(cases, model) if c[0].startswith("c14 check") and m != "unmodelled"]
         ctx.tie("model resolveCli / resolveShared = collect_modules / resolve_import_path on generated layouts", [c for c, _ in res], [m for _, m in res])
         ctx.tie("model visibility verdict = real check_with_imports verdict", [(c[0], c[1].split(" ")[0]) for c, _ in chk], [m for _, m in chk])
+        vis = [(c, m) for c, m in zip(cases, model) if c[0].startswith("c14 vis")]
+        ctx.tie("model exportedNames + rejectedNames = real exported_symbols + validate_import_visibility on generated modules", [c for c, _ in vis], [m for _, m in vis])
         hist = {"agree": 0, "differ": {}, "forms": {}}
         for req, real in cases:
             p = req.split(" ")
@@ -57,6 +59,19 @@ def run(args):
                 if fid and ctx.known(fid):
                     continue
                 failures.append({"request": req, "real": real, "why": "the command-line compiler and the language server resolve this import to different files"})
+            elif p[1] == "vis":
+                # expected: accepted iff the name is a pub declaration of m or a variant of a pub enum of m
+                ok_names = set()
+                for dd in p[2].split(";"):
+                    k, n, pub, vs = dd.split(":")
+                    if pub == "1":
+                        ok_names.add(n)
+                        if k == "enum" and vs != "-":
+                            ok_names.update(vs.split("+"))
+                exp = "accept" if p[4] in ok_names else "reject"
+                hist["vis"] = hist.get("vis", 0) + 1
+                if real != exp:
+                    failures.append({"request": req, "real": real, "why": f"expected {exp}: only names carried by pub declarations may be imported"})
             else:
                 name = p[2]
                 verdict = real.split(" ")[0]
